@@ -368,10 +368,12 @@ def run_check(check_id: str, tier: str, seed: int) -> int:
             time.time() - t0,
         )
     )
+    if n_unlisted:
+        return 1
     if vac is not None:
         print("VACUOUS %s: %s" % (mod.ID, vac))
         return 2
-    return 1 if n_unlisted else 0
+    return 0
 
 
 def run_replay(check_id: str, path: str) -> int:
